@@ -52,12 +52,12 @@ func (vc *VC) callModelled(st *State, o *types.Func, recv *Val, argv []Val, c *a
 				}
 			}
 			iS, lnS, vnS, arrS, varrS := i.S, ln, vn, arr, varr
-			vc.sumFacts(st, es, func(ps func(a, n string) string, f string) []string {
+			vc.sumFacts(st, es, func(ps func(a, n string) string, fv func(v string) string) []string {
 				mid := ps(varrS, vnS)
 				if single != nil {
 					mid = "(+ 0"
 					for _, v := range single {
-						mid += fmt.Sprintf(" (uf_%s %s)", f, v)
+						mid += " " + fv(v)
 					}
 					mid += ")"
 				}
@@ -86,7 +86,7 @@ func (vc *VC) callModelled(st *State, o *types.Func, recv *Val, argv []Val, c *a
 		vc.assume(st, fmt.Sprintf("(forall ((k Int)) (! (= (select %s k) (ite (< k %s) (select %s k) (select %s (+ k (- %s %s))))) :pattern ((select %s k))))",
 			na, i.S, arr, arr, j.S, i.S, na))
 		nl := vc.define("dlen", "Int", fmt.Sprintf("(- %s (- %s %s))", ln, j.S, i.S))
-		vc.sumFacts(st, es, func(ps func(a, n string) string, f string) []string {
+		vc.sumFacts(st, es, func(ps func(a, n string) string, fv func(v string) string) []string {
 			return []string{
 				fmt.Sprintf("(= %s %s)", ps(na, i.S), ps(arr, i.S)),
 				fmt.Sprintf("(= %s (+ %s (- %s %s)))", ps(na, nl), ps(arr, i.S), ps(arr, ln), ps(arr, j.S)),
